@@ -78,6 +78,7 @@ func runC20(c *Ctx) {
 	checkOldBtcdTableBehindVersionGate(c, "C20-R3")
 	checkSortInputKeyedByTxid(c, "C20-R4")
 	checkRecordSerialisationKeepsWitness(c, "C20-R4")
+	checkBroadcastErrorsAreMapped(c, "C20-R3")
 	runC20Rest(c)
 }
 
